@@ -238,7 +238,7 @@ Check (C07_loop_silent_while_running :
   forall al fb ops, let r := whole_run al fb ops in
   gone (l_task (fst r)) = None -> cnt is_close_note (snd r) = 0%nat).
 Check (C07_loop_running_is_held :
-  forall al fb ops, let s := fst (whole_run al fb ops) in running s = true -> any_held (l_handle s) = true).
+  forall al fb ops, let s := fst (whole_run al fb ops) in running s = true -> any_strong (l_handle s) (l_pend s) = true).
 Check (C07_loop_ends_iff_cause :
   forall s o, running s = true -> (running (fst (lstep s o)) = false <-> ends_conn s o = true)).
 Check (C07_loop_events_in_range :
